@@ -1,4 +1,5 @@
 import SpdxVerif.Props.C12Valid
+import SpdxVerif.Props.C12Grammar
 #print axioms Spdx.C12.active_eq_json
 #print axioms Spdx.C12.deprecated_eq_json
 #print axioms Spdx.C12.exceptions_eq_json
@@ -9,3 +10,6 @@ import SpdxVerif.Props.C12Valid
 #print axioms Spdx.C12.lists_ascii
 #print axioms Spdx.C12.listed_license_valid
 #print axioms Spdx.C12.exception_only_after_with
+#print axioms Spdx.C12.exception_only_after_with_grammar
+#print axioms Spdx.C12.exception_word_is_exception_token
+#print axioms Spdx.C12.D_head_not_exc
